@@ -37,3 +37,32 @@ package key
 //@   ensures typeof(key) == *agent.Key ==> result == key.(*agent.Key)
 //@   ensures typeof(key) != *agent.Key ==> result != nil
 //@   ensures typeof(key) != *agent.Key ==> (fresh(result) && contentOf(elems(result.Blob), off(result.Blob), len(result.Blob)) == blobid(key))
+
+//@ # ---------------------------------------------------------------- C02/C03: a fresh key pair per call
+//@ func createKeyPair(pka)
+//@   flag logged
+//@   let r0 = old(calls(rsa.GenerateKey))
+//@   let e0 = old(calls(ecdsa.GenerateKey))
+//@   let d0 = old(calls(ed25519.GenerateKey))
+//@   let n0 = old(calls(ssh.NewPublicKey))
+//@   ensures [exactly-one-generator-call-per-pair] (calls(rsa.GenerateKey) - r0) + (calls(ecdsa.GenerateKey) - e0) + (calls(ed25519.GenerateKey) - d0) == 1
+//@   ensures [algorithm-selects-the-generator] (pka == 2 || pka == 3 || pka == 4) <==> calls(ecdsa.GenerateKey) == e0 + 1
+//@   ensures pka == 5 <==> calls(ed25519.GenerateKey) == d0 + 1
+//@   ensures [rsa-sizes] calls(rsa.GenerateKey) == r0 + 1 ==> (arg(rsa.GenerateKey, r0, 1) == (pka == 1 ? 4096 : 2048))
+//@   ensures [system-randomness] (calls(rsa.GenerateKey) == r0 + 1 ==> arg(rsa.GenerateKey, r0, 0) == rand.Reader) &&
+//@     (calls(ecdsa.GenerateKey) == e0 + 1 ==> arg(ecdsa.GenerateKey, e0, 1) == rand.Reader) &&
+//@     (calls(ed25519.GenerateKey) == d0 + 1 ==> arg(ed25519.GenerateKey, d0, 0) == rand.Reader)
+//@   ensures [fresh-private-key-and-its-own-public-half] result2 == nil ==> (result0 != nil && fresh(pl(result0)) && result1 != nil &&
+//@     calls(ssh.NewPublicKey) == n0 + 1 && (pka != 5 ==> arg(ssh.NewPublicKey, n0, 0) == publicOf(result0)) &&
+//@     (pka == 5 ==> (typeof(result0) == *ed25519.PrivateKey && arr(*(result0.(*ed25519.PrivateKey))) == arr(ret(ed25519.GenerateKey, d0, 1)) && arg(ssh.NewPublicKey, n0, 0) == edPublicOf(arr(ret(ed25519.GenerateKey, d0, 1))))) && result1 == ret(ssh.NewPublicKey, n0, 0))
+//@   ensures [generated-key-is-the-one-returned] result2 == nil ==> ((calls(rsa.GenerateKey) == r0 + 1 ==> result0 == iface(ret(rsa.GenerateKey, r0, 0))) &&
+//@     (calls(ecdsa.GenerateKey) == e0 + 1 ==> result0 == iface(ret(ecdsa.GenerateKey, e0, 0))))
+//@   ensures result2 != nil ==> (result0 == nil && result1 == nil)
+
+//@ func GenerateKeyPair(pka)
+//@   flag logged
+//@   let c0 = old(calls(createKeyPair))
+//@   ensures calls(createKeyPair) == c0 + 1 && arg(createKeyPair, c0, 0) == pka
+//@   ensures result0 == ret(createKeyPair, c0, 0) && result1 == ret(createKeyPair, c0, 1) && result2 == ret(createKeyPair, c0, 2)
+//@   ensures result2 == nil ==> (result0 != nil && fresh(pl(result0)) && result1 != nil)
+//@   ensures result2 != nil ==> (result0 == nil && result1 == nil)
